@@ -1827,7 +1827,7 @@ impl Scenario for C11 {
     }
 
     fn watchdog_secs(&self) -> u64 {
-        60
+        300
     }
 }
 
